@@ -121,15 +121,15 @@ type RPCPlan struct {
 	StartGate      int  // caller waits for this gate before starting (0 = none)
 	StartDelay     time.Duration
 
-	Role            string // "", "interest", "bystander", "disturber", "fresh"
-	pausedHandler   bool
-	pausedReader    bool // this RPC\'s consumer is parked behind a gate for part of the run
+	Role              string // "", "interest", "bystander", "disturber", "fresh"
+	pausedHandler     bool
+	pausedReader      bool   // this RPC\'s consumer is parked behind a gate for part of the run
 	cancelWhenStalled string // "", "caller-paused", "handler-paused": the caller's context is cancelled once the run has stalled on this stream's full window
-	timeoutClass    string
-	timeoutRepeated string
-	awaitExpiry     bool
-	neverEnds       bool // the handler only returns when its context ends
-	late            bool // started after the tunnel ended
+	timeoutClass      string
+	timeoutRepeated   string
+	awaitExpiry       bool
+	neverEnds         bool // the handler only returns when its context ends
+	late              bool // started after the tunnel ended
 
 	// results filled in at run time (read after the run)
 	Res *RPCResult
